@@ -8,12 +8,8 @@ func c07Specs(tier string) []*Spec {
 	var specs []*Spec
 	keys := bs("a", "ab", "b")
 	add := func(name string, cfg Cfg, keys [][]byte, depth, maint int, older bool) {
-		wt := 1
-		if depth >= 6 {
-			wt = 8
-		}
 		a := Alpha{Writes: true, Save: true, Rollback: true, Reopen: c07Reopen, ReopenOlder: older, LoadVersion: true, DelTo: true, LVFO: true, Import: true}
-		specs = append(specs, &Spec{Weight: wt, ID: "C07", Name: name, Cfg: cfg, Keys: keys, Vals: bs("x", "y"), MaxDepth: depth, MaxMaint: maint,
+		specs = append(specs, &Spec{ID: "C07", Name: name, Cfg: cfg, Keys: keys, Vals: bs("x", "y"), MaxDepth: depth, MaxMaint: maint,
 			Alphabet: a.Ops, Oracles: []Oracle{oracleFast(probesFor(keys))}})
 	}
 	k2 := bs("a", "b")
